@@ -34,14 +34,37 @@ def gen_case(rng, fit=True):
     return {"sources": srcs, "verbose": rng.random() < 0.4, "archive": arch}
 
 
+def enc_size(n):
+    return 35 + 21 * ((n + 253) // 254) + n + 21
+
+
+def gen_frontier_case(rng):
+    """A set that fills the tape to within a few bytes of its last usable byte (TAPE - 1), mixing sizes on the 254-byte block boundary."""
+    used = set()
+    srcs = []
+    total = 0
+    for _ in range(rng.choice([1, 2, 3, 5])):
+        ln = rng.choice([0, 0, 254, 254, 508, 253, 255, 1, rng.randint(0, 900)])
+        total += enc_size(ln)
+        srcs.append({"arg": gen_source_path(rng, used), "content": gen_content(rng, ln)})
+    slack = rng.choice([0, 0, 1, 2, 20, 21, 22, 41, 42, 43, 63, 64, rng.randint(0, 130)])
+    target = TAPE - 1 - slack - total
+    ln = next((k for k in range(max(0, target - 56 - 21 * 90), target) if enc_size(k) == target), None)
+    if ln is None:
+        ln = next(k for k in range(target, 0, -1) if enc_size(k) <= target)
+    srcs.insert(rng.randint(0, len(srcs)), {"arg": gen_source_path(rng, used), "content": gen_content(rng, ln)})
+    return {"sources": srcs, "verbose": rng.random() < 0.4, "archive": rng.choice(["t.k7", "ABS/t.k7"])}
+
+
 def gen_cases(rng, tier):
     n = scale(tier, 250, 5000)
-    cases = [gen_case(rng) for _ in range(n)]
+    nf = scale(tier, 30, 600)
+    cases = [gen_case(rng) for _ in range(n)] + [gen_frontier_case(rng) for _ in range(nf)]
     # the exact frontier on one file: 19809 bytes -> 21503 encoded (accepted)
     cases.append({"sources": [{"arg": "big.bin", "content": {"rand": 7, "len": 19809}}], "verbose": False, "archive": "t.k7"})
     cases.append({"sources": [{"arg": "a.bas", "content": {"pat": "0101013c5a", "len": 254}}, {"arg": "b.bas,a", "content": {"hex": ""}},
                               {"arg": "c", "content": {"pat": "0101013c5aff0200", "len": 509}}], "verbose": True, "archive": "t.k7"})
-    return cases, {"random": n, "fixed": 2}
+    return cases, {"random": n, "tape filled to within 0..130 bytes of its capacity": nf, "fixed": 2}
 
 
 def arch_path(case, cd):
